@@ -13,7 +13,9 @@ from .tlaval import iter_dump_states
 INVS = ["HermitianOK", "MeanOK", "OrderOK", "ReversibleOK", "DissipativeOK", "DiffusionPSD", "InclusionOK", "Mix1dOK", "SemiRealOK", "DerivativeOK", "ParityOK", "EquivOK", "GroupOK", "SemigroupOK"]
 
 QUICK_DN = [1003, 1004, 1005, 1008, 1009, 1016, 2003, 2004, 2005, 2006, 3003, 3004]
-THOR_DN = [1000 + n for n in list(range(3, 34)) + [49, 64, 98]] + [2000 + n for n in range(3, 13)] + [3000 + n for n in range(3, 8)]
+THOR_DN = [1000 + n for n in list(range(3, 34))] + [2000 + n for n in range(3, 13)] + [3000 + n for n in range(3, 8)]
+# large 1D grids (incl. the float-hazard sizes 49, 98): derivative orders <= 4 only, k^6 leaves TLC's 32-bit integers for k >= 36
+THOR_DN_BIG = [1049, 1064, 1098]
 
 
 def run_model(run, tier, workdir, maxj=6, maxt=3):
@@ -24,19 +26,32 @@ def run_model(run, tier, workdir, maxj=6, maxt=3):
     run.add_tlc(res, "MC_Linear")
     if not res.ok:
         run.violation({"kind": "spec", "invariant": res.violated}, {"trace": res.trace_text})
+    res.more = []
+    if tier != "quick" and dn is THOR_DN:
+        cfg2 = os.path.join(workdir, "MC_Linear_big.cfg")
+        tlc.write_cfg(cfg2, constants={"DNSet": "{" + ",".join(map(str, THOR_DN_BIG)) + "}", "MaxJ": min(maxj, 4), "MaxT": 0}, invariants=INVS)
+        res2 = tlc.run_tlc("MC_Linear", cfg2, workers=16, dump=True, timeout=3000, tag="MC_Linear_big")
+        run.add_tlc(res2, "MC_Linear/big")
+        if not res2.ok:
+            run.violation({"kind": "spec", "invariant": res2.violated}, {"trace": res2.trace_text})
+        res.more.append(res2)
     return res
 
 
 def load(res):
     """-> tables {(cls, mix, D, N): {s: [terms]}}, behaviours [(cls, mix, D, N, hist, t)]"""
     tables, behs = {}, []
-    for st in iter_dump_states(res.dump):
+    import itertools
+    dumps = [res.dump] + [r.dump for r in getattr(res, "more", [])]
+    for st in itertools.chain.from_iterable(iter_dump_states(d) for d in dumps):
         key = (st["cls"], st["mix"], st["D"], st["N"])
         if len(st["hist"]) == 0:
             terms = [(tuple(t["c"]), t["w"], cq(t["m"])) for t in st["terms"]]
             tables.setdefault(key, {})[tuple(st["s"])] = terms
         else:
             behs.append((st["cls"], st["mix"], st["D"], st["N"], [tuple(h) for h in st["hist"]], st["t"]))
+    for r in getattr(res, "more", []):
+        tlc.cleanup(r)
     return tables, behs
 
 
@@ -52,6 +67,15 @@ def symbol_array(D, N, table, params, omega):
     for s, terms in table.items():
         lam[s] = eval_terms(terms, params, omega)
     return lam
+
+
+def symbol_abs_array(D, N, table, params, omega):
+    """Sum_t |coef_t w^j mono_t(k)| per stored index: the magnitude against which the rounding of the code's own summation of the symbol
+    is measured (the terms may cancel exactly, e.g. c (k_1 + k_2 + k_3) = 0, while each is rounded at its own size)."""
+    out = np.zeros(wshape(D, N))
+    for s, terms in table.items():
+        out[s] = sum(abs(params[c] * (omega ** w) * m) for c, w, m in terms)
+    return out
 
 
 def spd(rng, D):
@@ -95,7 +119,7 @@ def draw_variants(cls, mix, D, rng, maxj=6):
         z = float(rng.uniform(1e-4, 0.05))
         out.append(("scalar", {("hyper_diffusivity", 0, 0): z}, (cls, dict(hyper_diffusivity=z, diffuse_on_diffuse=bool(mix)))))
     elif cls == "GeneralLinear":
-        for J in (1, 2, 3, 4, maxj):
+        for J in sorted({1, 2, 3, 4, maxj}):
             a = rng.uniform(-1, 1, J + 1) * np.array([0.5 ** j for j in range(J + 1)])
             # keep even orders dissipative enough that exp stays moderate: sign of a_j (i)^j real part non-positive
             for j in range(0, J + 1, 2):
